@@ -35,6 +35,7 @@ var (
 
 // Prog is the loaded, type-checked program in SSA form.
 type Prog struct {
+	FieldAlias map[string]*types.Var // "Struct.field" anchors re-bound after a rename (see shapes.go)
 	Converted map[*ssa.Function]string // functions answering to an anchor name after a method<->function conversion
 	Variant Variant
 	Fset    *token.FileSet
@@ -194,6 +195,9 @@ func closureName(f *ssa.Function) string {
 	}
 	if top.Package() == nil {
 		return f.String()
+	}
+	if old, ok := convertedNames[top]; ok && strings.HasPrefix(f.Name(), top.Name()) {
+		return old + strings.TrimPrefix(f.Name(), top.Name()) // closure of a re-bound function: "old$1"
 	}
 	tn := top.RelString(top.Package().Pkg) // "(*Conn).write"
 	base := top.Name()
